@@ -106,6 +106,24 @@ def run_case(case):
     else:
         sources, cfg, _ = c03.gen_case(sub)
     fmt = cfg["color_format"]
+    source_glyph_ids = []
+    if fmt.startswith("untouchedsvg") and common.rng(ID, "ids", case["seed"], case["i"]).random() < 0.6:
+        # raw sources whose own ids begin with "glyph" (glyph-petal, glyphFill, ...): they are referenced from inside
+        # the source and are not the glyph<ID> elements nanoemoji adds
+        import re as _re
+
+        r3 = common.rng(ID, "ids2", case["seed"], case["i"])
+        for s_ in sources:
+            if source_glyph_ids:
+                break
+            for old_id in set(_re.findall(r'\bid="([^"]+)"', s_["svg"])):
+                new_id = "glyph" + r3.choice(["-", "Fill", "_", ""]) + old_id
+                if r3.random() < 0.12 and not source_glyph_ids:
+                    # exactly the spelling nanoemoji itself uses for glyph elements (an SVG lifted from another OT-SVG font)
+                    new_id = "glyph%d" % r3.randint(1, 4)
+                    source_glyph_ids.append(new_id)
+                s_["svg"] = s_["svg"].replace(f'id="{old_id}"', f'id="{new_id}"').replace(f"#{old_id})", f"#{new_id})").replace(f'"#{old_id}"', f'"#{new_id}"')
+        cfg = dict(cfg)
     # the outline flavour follows the output file's extension, not the colour format's name: cross them
     # (OT-SVG formats: .ttf only, per the statement)
     ext = "default"
@@ -138,7 +156,14 @@ def run_case(case):
         return res
     problems, facts = structure.validate(built.data, keep_glyph_names=built.cfg.keep_glyph_names)
     for p in problems:
-        res["violations"].append({"what": p, "config": cfg, "format": fmt, "coloured_notdef": notdef})
+        v = {"what": p, "config": cfg, "format": fmt, "coloured_notdef": notdef}
+        if source_glyph_ids and f"id {source_glyph_ids[0]!r} used twice" in p:
+            # F28: untouchedsvg keeps the source's own ids, one of which is spelled like the glyph element's
+            v["mechanism"] = "F28-untouchedsvg-source-id-spelled-glyphN"
+            v["source_id"] = source_glyph_ids[0]
+        res["violations"].append(v)
+    if source_glyph_ids:
+        c["sources_with_an_id_spelled_glyphN"] = 1
     c["fonts"] = 1
     for k in ("colr", "svg_docs", "cblc_bitmaps", "sbix"):
         if facts.get(k):
